@@ -1,14 +1,18 @@
 #!/bin/bash
-# scripts/ingest_seed.sh cNN ...  : confirm /tmp/seed-cNN/SEED/{a,b} independently and keep the confirmed ones under /verif/seeded/
+# scripts/ingest_seed.sh [round:]cNN ...  : confirm /tmp/seed<round>-cNN/SEED/{a,b,c} independently and keep the confirmed
+# ones under /verif/seeded/CNN-<x> (round 1) or CNN-r<round><x>.
 cd "$(dirname "$(readlink -f "$0")")/.."
-for c in "$@"; do
+for arg in "$@"; do
+  round=""; c=$arg
+  case "$arg" in *:*) round=${arg%%:*}; c=${arg##*:};; esac
   C=$(echo $c | tr c C)
-  for x in a b; do
-    src=/tmp/seed-$c/SEED/$x
-    [ -f $src/patch.diff ] || { echo "$C-$x: no patch"; continue; }
+  for x in a b c; do
+    src=/tmp/seed$round-$c/SEED/$x
+    [ -f $src/patch.diff ] || continue
     res=$(scripts/confirm_seed.sh $src 2>&1 | tail -4)
+    name=$C-$x; [ -n "$round" ] && name=$C-r$round$x
     if echo "$res" | grep -q '^CONFIRMED'; then
-      dst=seeded/$C-$x; rm -rf $dst; mkdir -p $dst
+      dst=seeded/$name; rm -rf $dst; mkdir -p $dst
       cp $src/patch.diff $src/meta.json $dst/; cp $src/*.go $dst/ 2>/dev/null
       python3 - "$dst/meta.json" "$C" <<'PY'
 import json,sys
@@ -16,9 +20,9 @@ p=sys.argv[1]; m=json.load(open(p)); m['property']=sys.argv[2]
 m['confirmed']="scripts/confirm_seed.sh: demo passes on clean HEAD, patch applies, touched packages' tests pass, demo fails with patch"
 json.dump(m,open(p,'w'),indent=1)
 PY
-      echo "$C-$x: CONFIRMED"
+      echo "$name: CONFIRMED"
     else
-      echo "$C-$x: $res"
+      echo "$name: $res"
     fi
   done
 done
